@@ -401,3 +401,40 @@ def pformat_request(sx, cfg):
     return '(pformat %d %d %d %s %d %d %s)' % (
         cfg.get('indent', 4), w, effective_rw(w, cfg.get('ribbon_width', 71)), depth, msl,
         1 if cfg.get('sort_dict_keys', False) else 0, sx)
+
+
+def dedupe(t):
+    """drop set elements / dict pairs whose key equals an earlier one once comment
+    wrappers are removed (a wrapper hashes by identity, so the commented value would
+    otherwise have MORE elements than the value without its comments)"""
+    import printercheck as PC
+    k = t[0]
+    if k in ('list', 'tuple'):
+        return (k, [dedupe(x) for x in t[1]])
+    if k in ('set', 'frozenset'):
+        seen, out = [], []
+        for x in t[1]:
+            x = dedupe(x)
+            v, _ = build(PC.strip_comments_term(x))
+            if any(v == s and hash(v) == hash(s) for s in seen):
+                continue
+            seen.append(v)
+            out.append(x)
+        return (k, out)
+    if k == 'dict':
+        seen, out = [], []
+        for a, b in t[1]:
+            a = dedupe(a)
+            v, _ = build(PC.strip_comments_term(a))
+            if any(v == s and hash(v) == hash(s) for s in seen):
+                continue
+            seen.append(v)
+            out.append((a, dedupe(b)))
+        return (k, out)
+    if k == 'sub':
+        return (k, t[1], dedupe(t[2]))
+    if k in ('commented', 'trailing'):
+        return (k, dedupe(t[1]), t[2])
+    if k == 'call':
+        return (k, t[1], [dedupe(x) for x in t[2]], [(kw, dedupe(x)) for kw, x in t[3]])
+    return t
